@@ -174,8 +174,10 @@ def facts(src, strip_comments, fn_body, repo=None):
                 out["randomByEffect"] = by_effect and {"SPOP", "XADD"} <= names and '"SREM"' in (ee or "")
                 # EVALSHA: excluded from the verbatim append, and handle_evalsha_command appends the EVAL it stands for
                 hev = fn_body(server, "handle_evalsha_command")
-                out["evalshaAsEval"] = by_effect and "EVALSHA" in names and hev is not None and \
-                    bool(re.search(r"self\s*\.\s*log_effect\s*\(\s*db\s*,\s*&\s*eval_parts\s*\)", hev))
+                m_log = re.search(r"self\s*\.\s*log_effect\s*\(\s*db\s*,\s*&\s*eval_parts\s*\)", hev or "")
+                m_run = re.search(r"handle_eval_with_db\s*\(", hev or "")
+                # appended BEFORE the script runs (whatever its outcome: scripts are not rolled back)
+                out["evalshaAsEval"] = by_effect and "EVALSHA" in names and bool(m_log) and bool(m_run) and m_log.start() < m_run.start()
     # ---- every other caller of append_command (AofEngine): which functions log?
     sites = []
     for rel, text in all_sources(src, strip_comments, repo):
@@ -209,6 +211,17 @@ def facts(src, strip_comments, fn_body, repo=None):
             after_all = bool(re.search(r"\bwriter\s*\.\s*flush\s*\(\s*\)", tail))
             out["flushPerAppend"] = [(p, f or after_all) for p, f in arms]
 
+    # ---- SELECT tracking across restarts: `last_db` starts unknown (None) and becomes Some(0) only for an empty file
+    fnew, finit = fn_body(aof_src, "new"), fn_body(aof_src, "init")
+    if fnew is None or finit is None:
+        out["errors"].append("AofEngine::new / init not found in storage/aof.rs")
+        out["lastDbUnknownOnInheritedFile"] = None
+    else:
+        out["lastDbUnknownOnInheritedFile"] = \
+            bool(re.search(r"last_db\s*:\s*Arc\s*::\s*new\s*\(\s*Mutex\s*::\s*new\s*\(\s*None\s*\)\s*\)", fnew)) and \
+            bool(re.search(r"if\s+file\s*\.\s*metadata\s*\(\s*\)\s*\?\s*\.\s*len\s*\(\s*\)\s*==\s*0\s*\{\s*\*\s*self\s*\.\s*last_db\s*\.\s*lock\s*\(\s*\)\s*\.\s*unwrap\s*\(\s*\)\s*=\s*Some\s*\(\s*0\s*\)", finit)) and \
+            len(re.findall(r"last_db", finit)) == 1
+
     # ---- EXEC and a queued SELECT: run through handle_select with the connection's id (selects, never appended)?
     hexec = fn_body(server, "handle_exec")
     if hexec is None:
@@ -231,6 +244,14 @@ def facts(src, strip_comments, fn_body, repo=None):
         return False
 
     out["wakeLogs"] = logs("wake_client")
+    # … unconditionally: right after the pop, not only when the woken client could still be served
+    wk = fn_body(server, "wake_client")
+    if wk is not None and out["wakeLogs"]:
+        i_log = re.search(r"self\s*\.\s*log_blocking_pop\s*\(", wk)
+        i_served = re.search(r"\bserved\b", wk)
+        out["wakeLogsWhateverServed"] = bool(i_log) and (i_served is None or i_log.start() < i_served.start())
+    else:
+        out["wakeLogsWhateverServed"] = None if wk is None else False
     if out["wakeLogs"] is None:
         out["errors"].append("fn wake_client not found in network/server.rs")
     bl, br = logs("handle_blpop"), logs("handle_brpop")
@@ -321,6 +342,16 @@ def generate(src, strip_comments, fn_body, header, repo=None):
         failed("selectTracked", "Bool", err or "append site not found")
     else:
         L.append("def selectTracked : Bool := %s" % ("true" if f["selectTracked"] else "false"))
+    L.append("")
+    L.append("/-- does `wake_client` log the pop right after making it, whether or not the woken client can still be served? -/")
+    L.append("def wakeLogsWhateverServed : Bool := %s" % ("true" if f.get("wakeLogsWhateverServed") else "false"))
+    L.append("")
+    L.append("/-- `last_db` starts unknown (`None`) and `init()` sets it to `Some(0)` only for an empty file: after a restart on an")
+    L.append("    inherited file the first entry is preceded by a SELECT -/")
+    if f["lastDbUnknownOnInheritedFile"] is None:
+        failed("lastDbUnknownOnInheritedFile", "Bool", err or "AofEngine::new/init not recognised")
+    else:
+        L.append("def lastDbUnknownOnInheritedFile : Bool := %s" % ("true" if f["lastDbUnknownOnInheritedFile"] else "false"))
     L.append("")
     L.append("/-- per fsync policy: does `AofEngine::append_command` hand the entry to the OS (`writer.flush()`) on every append?")
     L.append("    (then a reader of the file sees every acknowledged entry; fsync — durability against power loss — is another matter) -/")
